@@ -38,8 +38,22 @@ VContext(e) ==
   ELSE IF e.hit # ContextMatches(e.alts, e.stack) THEN (IF e.hit THEN "bad:ContextRuleAppliedWrongly" ELSE "bad:ContextRuleNotApplied")
   ELSE "ok"
 
+(* a style attribute: the text inside the styled element carries exactly the marks the declared style rules assign and the
+   parent textblock allows; the text after the element carries none *)
+VStyle(e) ==
+  IF e.res.kind = "timeout" THEN "bad:ParseDoesNotTerminate"
+  ELSE IF e.res.kind # "ok" THEN "bad:ParseRaised"
+  ELSE IF ~Valid(e.out) THEN "bad:ParsedInvalid"
+  ELSE IF ~e.found THEN "bad:StyledTextLost"
+  \* e.tagmarks: the marks the element's own tag rule assigns (<b> gives strong)
+  ELSE LET want == {m \in StyleMarks(Input.stylerules, e.decls) \cup {e.tagmarks[i] : i \in 1..Len(e.tagmarks)} : AllowsMarkType(e.parent, m)} IN
+       IF {e.inside[i] : i \in 1..Len(e.inside)} # want THEN "bad:StyleRule"
+       ELSE IF Len(e.after) # 0 THEN "bad:StyleLeaked"
+       ELSE "ok"
+
 Verdict(e) ==
   CASE e.ev = "Serialize" -> VSerialize(e)
+    [] e.ev = "Style" -> VStyle(e)
     [] e.ev = "RoundTrip" -> VRoundTrip(e)
     [] e.ev = "Parse" -> VParse(e)
     [] e.ev = "Context" -> VContext(e)
